@@ -4,31 +4,32 @@ from vf.props.common import *
 def spec(tier):
     th = tier == "thorough"
     obs = []
-    combos = ["FFF", "GFF", "FGF", "GGF"] + (["GGG", "FFG", "GFG", "FGG"] if th else [])
+    combos = ["FFF", "GFF", "FGF"] + (["GGF", "GGG", "FFG"] if th else [])
     for oc in (False, True):
         for kinds in combos:
             for sus in ((-1, 1, 2) if th else (-1, 1)):
                 ks = list(kinds)
-                sym = {}
                 fixed = dict(oc=oc, kinds=ks, sus_at=sus, dA=1, t1=0, t2=1)
+                full = {}
                 for i, k in enumerate(ks):
-                    if k == "F":
-                        sym[f"x{i}"] = I(0, 30)
-                        sym[f"a{i}"] = I(1, 30)
-                    else:
-                        sym[f"x{i}"] = I(0, 65)
-                        sym[f"a{i}"] = I(1, 70)
-                # keep <= 5 symbolic sizes per condition
-                if oc:
-                    sym["cap"] = I(20, 90)
-                    fixed["a2"] = 30 if ks[2] == "F" else 70
-                    sym.pop("a2")
-                else:
-                    fixed["cap"] = 200
-                    fixed["a2"] = 30 if ks[2] == "F" else 70
-                    sym.pop("a2")
-                obs.append(CH(name=f"memory_oc{int(oc)}_{kinds}_s{sus}", harness="c04.memory_step", sym=sym, fixed=fixed,
-                              timeout=1200 if th else 600))
+                    full[f"x{i}"] = I(0, 30) if k == "F" else I(0, 45)
+                    full[f"a{i}"] = I(1, 30) if k == "F" else I(1, 50)
+                    fixed[f"x{i}"] = 8 if k == "F" else 30
+                    fixed[f"a{i}"] = 30 if k == "F" else 50
+                fixed["cap"] = 200
+                # at most four symbolic sizes per condition: demand+allocation of container 0, demand of 1,
+                # and the capacity (overcommit) or the demand of container 2 (no overcommit)
+                groups = [["x0", "a0", "x1", "cap" if oc else "x2"], ["x1", "a1", "x2", "cap" if oc else "a2"]]
+                if not th:
+                    groups = groups[:1] if kinds != "FGF" else groups[1:]
+                for gi, g in enumerate(groups):
+                    sym = {}
+                    f2 = dict(fixed)
+                    for v in g:
+                        sym[v] = I(20, 90) if v == "cap" else full[v]
+                        f2.pop(v, None)
+                    obs.append(CH(name=f"memory_oc{int(oc)}_{kinds}_s{sus}_g{gi}", harness="c04.memory_step", sym=sym, fixed=f2,
+                                  timeout=1200 if th else 600))
     # timing of starts and suspension symbolic
     for oc in (False, True):
         obs.append(CH(name=f"timing_oc{int(oc)}", harness="c04.memory_step",
